@@ -62,7 +62,14 @@ def spine_rule(g):
                 node["times"] = g.pick([2, {"min": 0, "max": 2}, {"min": 1, "max": 2}])
             pat.append(node)
         else:
-            pat.append(g.pick(gen_rules.LIT_MNEMS))
+            m = g.pick(gen_rules.LIT_MNEMS)
+            if g.chance(0.5):
+                # a capture-free item repeated with `times` (either spelling), possibly before the first definition:
+                # its repetition wrapper must not disturb the numbering of the capture groups
+                t = g.pick([2, 3, {"min": 1, "max": 2}, {"min": 2, "max": 3}])
+                pat.append({m: {"times": t}} if g.chance(0.5) else {m: [g.pick(gen_rules.LIT_OPS)], "times": t})
+            else:
+                pat.append(m)
     doc = {"pattern": pat}
     if cfg:
         doc["config"] = cfg
